@@ -40,6 +40,15 @@ TEXT = {
     "C12": {"level": _E1 + "Lease reads (fast path through EmbeddedClient/read handle and the Raft path) are included in the "
                            "linearizability check; every configuration the generator draws passes validate() and is asserted to have "
                            "lease < election_timeout_min.", "note": _N1 + " Equal-rate clocks assumed."},
+    "C13": {"level": _E1 + "Scenario 'routing': every read carries a unique never-written marker key, so the state-machine read that "
+                           "produced each answer is identified together with the handle it came through (Raft loop, ReadActor, embedded "
+                           "direct path), the node's role and its lease validity at that instant. Reads go through the raw command "
+                           "channel, the EmbeddedClient and the real tonic handler Node::handle_client_read, to leaders, followers, "
+                           "learners and isolated ex-leaders, with server default policy and allow_client_override drawn per run. "
+                           "Oracles: a strong (effective) read answered with data was served by a leader; with overrides disallowed "
+                           "the effective policy is the server default on every path (no fast path for a Linearizable default, no "
+                           "lease-less fast path for a LeaseRead default, no not-leader rejection for an Eventual default); a stable "
+                           "follower/learner answers strong reads with a not-leader error.", "note": _N1},
     "C14": {"level": _E1 + "Writes definitely rejected (not leader, back-pressure, empty/invalid command) carry unique values; none of them "
                            "may appear in any node's apply ledger, and one submission is applied at most once.", "note": _N1},
     "C16": {"level": _E1 + "Every snapshot generated in a cluster run is checked: recorded boundary == last_applied of the captured state; "
@@ -94,5 +103,11 @@ TEXT = {
 }
 
 NOT_CLAIMED = {
+    "C17": "not claimed yet: the snapshot-stream mutation harness (E3) is not built",
+    "C24": "not claimed yet: the watch harness (E3) is not built",
+    "C25": "not claimed yet: the scan/apply interleaving harness is not built",
+    "C28": "not claimed yet: membership-after-restart oracle not built",
+    "C33": "not claimed yet: purge-safety oracle not built",
+    "C36": "not claimed yet: merge-equivalence scenario not built",
     "C34": "not applicable: RaftConfig::validate() is a pure function of numbers - no schedule, clock, fault or interleaving for a simulator to decide (DESIGN.md §12)",
 }
